@@ -9,6 +9,7 @@
 #include <sys/socket.h>
 #include <unistd.h>
 #include <signal.h>
+#include <malloc.h>
 
 /* exact-size copy (optionally followed by one terminator byte) so that ASan sees over-reads */
 static char *exact (const uint8_t *b, size_t len, int term)
@@ -78,6 +79,38 @@ static void print_info (FILE *f, struct MHD_Connection *c)
   fputs ("un3 ", f);
   print_uname (f, ui->uname_type, ui->username, ui->username_len, ui->userhash_hex, ui->userhash_hex_len, ui->userhash_bin);
   fprintf (f, " algo=%d", (int) ui->algo3);
+  MHD_free (ui);
+}
+
+/* ---------------------------------------------------------------- block layout */
+
+static void reg (FILE *f, const char *tag, const void *base, const void *p, size_t n)
+{
+  if (NULL == p) fprintf (f, " %s=-", tag);
+  else fprintf (f, " %s=%td:%zu", tag, (const uint8_t *) p - (const uint8_t *) base, n);
+}
+
+/* offsets of the returned pointers relative to the first byte behind the structure, and the number of bytes
+   allocated there (ASan's malloc_usable_size is the requested size) */
+static void print_layout (FILE *f, struct MHD_Connection *c)
+{
+  struct MHD_DigestAuthInfo *di = MHD_digest_auth_get_request_info3 (c);
+  struct MHD_DigestAuthUsernameInfo *ui;
+  if (NULL == di) { fputs ("lay none", f); return; }
+  fprintf (f, "lay alloc=%zu", malloc_usable_size (di) - sizeof(*di));
+  reg (f, "user", di + 1, di->username, di->username_len);
+  reg (f, "uhh", di + 1, di->userhash_hex, di->userhash_hex_len);
+  reg (f, "uhb", di + 1, di->userhash_bin, di->userhash_hex_len / 2);
+  reg (f, "opaque", di + 1, di->opaque, di->opaque_len);
+  reg (f, "realm", di + 1, di->realm, di->realm_len);
+  MHD_free (di);
+  fputs (" | ", f);
+  ui = MHD_digest_auth_get_username3 (c);
+  if (NULL == ui) { fputs ("un3 none", f); return; }
+  fprintf (f, "un3 alloc=%zu", malloc_usable_size (ui) - sizeof(*ui));
+  reg (f, "user", ui + 1, ui->username, ui->username_len);
+  reg (f, "uhh", ui + 1, ui->userhash_hex, ui->userhash_hex_len);
+  reg (f, "uhb", ui + 1, ui->userhash_bin, ui->userhash_hex_len / 2);
   MHD_free (ui);
 }
 
@@ -157,12 +190,14 @@ static int conn_value_ok (const uint8_t *v, size_t n)
   return 1;
 }
 
-static void do_conn (const uint8_t *v, size_t n)
+static void do_conn_m (uint8_t **vs, const size_t *ns, int cnt)
 {
   int sv[2];
   char *buf = NULL; size_t blen = 0;
-  static const char pre[] = "GET /x HTTP/1.1\r\nHost: h\r\nAuthorization: ";
+  static const char pre[] = "GET /x HTTP/1.1\r\nHost: h";
+  static const char hdr[] = "\r\nAuthorization: ";
   static const char post[] = "\r\nConnection: close\r\n\r\n";
+  int wbad = 0;
   char rb[512];
   if (NULL == rd)
   {
@@ -174,8 +209,11 @@ static void do_conn (const uint8_t *v, size_t n)
   hout = open_memstream (&buf, &blen);
   handler_calls = 0;
   if (MHD_YES != MHD_add_connection (rd, sv[0], NULL, 0)) { puts ("fault add-connection"); close (sv[1]); fclose (hout); free (buf); return; }
-  if (write (sv[1], pre, sizeof(pre) - 1) < 0 || write (sv[1], v, n) < 0 || write (sv[1], post, sizeof(post) - 1) < 0)
-  { puts ("fault write"); }
+  if (write (sv[1], pre, sizeof(pre) - 1) < 0) wbad = 1;
+  for (int k = 0; k < cnt; k++)
+    if (write (sv[1], hdr, sizeof(hdr) - 1) < 0 || write (sv[1], vs[k], ns[k]) < 0) wbad = 1;
+  if (write (sv[1], post, sizeof(post) - 1) < 0) wbad = 1;
+  if (wbad) { puts ("fault write"); }
   for (int k = 0; k < 12; k++) MHD_run (rd);
   shutdown (sv[1], SHUT_WR);
   while (recv (sv[1], rb, sizeof(rb), MSG_DONTWAIT) > 0) { }
@@ -186,6 +224,13 @@ static void do_conn (const uint8_t *v, size_t n)
   fputs (buf ? buf : "", stdout);
   putchar ('\n');
   free (buf);
+}
+
+static void do_conn (const uint8_t *v, size_t n)
+{
+  uint8_t *vs[1]; size_t ns[1];
+  vs[0] = (uint8_t *) v; ns[0] = n;
+  do_conn_m (vs, ns, 1);
 }
 
 /* ---------------------------------------------------------------- white-box parsers */
@@ -299,6 +344,55 @@ int main (void)
       if ('b' == l.w[0][0]) print_basic (stdout, &fconn); else print_info (stdout, &fconn);
       putchar ('\n');
       fab_done (val); free (b);
+    }
+    else if (l.n >= 1 && 1 == (l.n % 3) && (!strcmp (l.w[0], "basich") || !strcmp (l.w[0], "infoh")) && (l.n / 3) <= MAXH)
+    {
+      int nh = l.n / 3, bad = 0;
+      char *names[MAXH], *vals[MAXH];
+      fab_reset ();
+      for (int i = 0; i < nh; i++) { names[i] = vals[i] = NULL; }
+      for (int i = 0; i < nh && !bad; i++)
+      {
+        uint64_t kind; size_t nl, vl; uint8_t *nb, *vb;
+        if (!lp_u64 (l.w[1 + 3*i], &kind) || kind > 1000) { bad = 1; break; }
+        nb = lp_unhex (l.w[2 + 3*i], &nl);
+        vb = lp_unhex (l.w[3 + 3*i], &vl);
+        if (!nb || !vb) { free (nb); free (vb); bad = 1; break; }
+        names[i] = exact (nb, nl, 0); vals[i] = exact (vb, vl, 0);
+        free (nb); free (vb);
+        fab_add (i, (int) kind, names[i], nl, vals[i], vl);
+      }
+      if (bad) puts ("bad-op");
+      else
+      {
+        fconn.state = MHD_CONNECTION_FULL_REQ_RECEIVED;
+        fconn.pool = MHD_pool_create (2048);
+        if ('b' == l.w[0][0]) print_basic (stdout, &fconn); else print_info (stdout, &fconn);
+        putchar ('\n');
+        MHD_pool_destroy (fconn.pool);
+      }
+      for (int i = 0; i < nh; i++) { free (names[i]); free (vals[i]); }
+    }
+    else if (l.n == 2 && !strcmp (l.w[0], "layout"))
+    {
+      size_t n; uint8_t *b = lp_unhex (l.w[1], &n);
+      if (!b) { puts ("bad-op"); continue; }
+      char *val = fab_single (b, n);
+      print_layout (stdout, &fconn);
+      putchar ('\n');
+      fab_done (val); free (b);
+    }
+    else if (l.n >= 2 && l.n <= 9 && !strcmp (l.w[0], "connm"))
+    {
+      uint8_t *vs[8]; size_t ns[8]; int cnt = l.n - 1, bad = 0;
+      for (int k = 0; k < cnt; k++) vs[k] = NULL;
+      for (int k = 0; k < cnt && !bad; k++)
+      {
+        vs[k] = lp_unhex (l.w[1 + k], &ns[k]);
+        if (!vs[k] || !conn_value_ok (vs[k], ns[k])) bad = 1;
+      }
+      if (bad) puts ("bad-op"); else do_conn_m (vs, ns, cnt);
+      for (int k = 0; k < cnt; k++) free (vs[k]);
     }
     else if (l.n == 2 && !strcmp (l.w[0], "conn"))
     {
